@@ -77,3 +77,189 @@ def judge(case, query, pick):
             tags.append("realloc-second-best")
         return False, (f"the code picks {c} but {bests[0]} has a larger exact gain ({best}/{L} > {c['gain']}/{L})"), tuple(tags)
     return True, "", ()
+
+
+# ---------------------------------------------------------------------------------------------------------------
+# code -> spec: recording real Kauri.fit executions as KauriTrace events
+import math, itertools, io, contextlib
+
+
+def lcm_to(n):
+    l = 1
+    for i in range(2, n + 1):
+        l = l * i // math.gcd(l, i)
+    return l
+
+
+def _scaled(v, L):
+    s = v * L
+    r = int(round(s))
+    return r, bool(abs(s - r) < 1e-6 * max(1.0, abs(s)))
+
+
+def record_fit(params, X, Kmat=None, variant="compiled", queries=None):
+    """Fit a real Kauri on integer data X (n x d) with integer kernel (linear if Kmat is None, else precomputed) and
+    return (events, model).  params uses the constructor's names."""
+    from gemclus.tree import Kauri
+    mod = dict(build.variants())[variant]
+    X = np.asarray(X, dtype=np.float64)
+    n, d = X.shape
+    L = lcm_to(n)
+    Kint = (X @ X.T) if Kmat is None else np.asarray(Kmat, dtype=np.float64)
+    assert np.all(Kint == np.round(Kint)) and np.all(X == np.round(X))
+    raw = dict(kmax=params.get("max_clusters", 3), maxdepth=params.get("max_depth") or 0,
+               minsplit=params.get("min_samples_split", 2), minleaf=params.get("min_samples_leaf", 1),
+               maxfeat=params.get("max_features") or 0, maxleaves=params.get("max_leaves") or 0)
+    events = [dict(e="setup", X=X.astype(int).tolist(), K=Kint.astype(int).tolist(), par=raw)]
+    model = Kauri(kernel="linear" if Kmat is None else "precomputed", **params)
+    with build.kauri_with(mod) as kk:
+        real = kk.find_best_split
+
+        def spy(kernel, Xa, leaves, Y, Z, n_clusters, K_max, n_leaves, min_leaf, feats):
+            s = real(kernel, Xa, leaves, Y, Z, n_clusters, K_max, n_leaves, min_leaf, feats)
+            g, ok = _scaled(float(s.gain), L)
+            th = float(s.threshold)
+            events.append(dict(e="step", expl=[int(v) for v in leaves], fsub=sorted(int(f) + 1 for f in feats),
+                               nC=int(n_clusters), nL=int(n_leaves), kmax=int(K_max), minleaf=int(min_leaf),
+                               leaf=int(s.leaf), f=int(s.feature) + 1, th=int(round(th)), thint=bool(th == round(th)),
+                               lt=int(s.left_target), rt=int(s.right_target), gain=g, gainok=ok))
+            return s
+        kk.find_best_split = spy
+        try:
+            model.fit(X, None if Kmat is None else Kint)
+        finally:
+            kk.find_best_split = real
+        t = model.tree_
+        if queries is None:
+            lo, hi = int(X.min()) - 1, int(X.max()) + 1
+            pts = list(itertools.product(range(lo, hi + 1), repeat=d))
+            if len(pts) > 40:
+                pts = pts[::max(1, len(pts) // 40)]
+            queries = [list(p) for p in pts]
+        pred = model.predict(np.asarray(queries, dtype=np.float64)) if queries else []
+        train_pred = model.predict(X)
+        sc, scok = _scaled(float(model.score(X, None if Kmat is None else Kint)), L)
+        gains = [_scaled(float(g), L)[0] for g in t.gains]
+        events.append(dict(
+            e="end", labels=[int(v) for v in model.labels_], leaves=[int(v) for v in model.leaves_],
+            tree=dict(left=[int(v) for v in t.children_left], right=[int(v) for v in t.children_right],
+                      feat=[-1 if f is None else int(f) + 1 for f in t.features],
+                      th=[-1 if v is None else int(round(float(v))) for v in t.thresholds],
+                      target=[int(v) for v in t.target], depth=[int(v) for v in t.depths], gain=gains),
+            queries=[[int(v) for v in q] for q in queries] + X.astype(int).tolist(),
+            pred=[int(v) for v in pred] + [int(v) for v in train_pred],
+            score=sc, scoreok=scok, nnodes=int(t.n_nodes)))
+    return events, model
+
+
+# ---------------------------------------------------------------------------------------------------------------
+# drivers shared by C08 (gain / best-split clauses) and C09 (structural clauses)
+import json, collections
+from . import trace
+from .common import MachineryError
+
+TRACE_INVS = {"C08": ["ScoreIsSum"], "C09": ["Limits", "TreeShape", "RoutingReproducesPartition"]}
+
+def datasets(tier, rnd):
+    ds = {
+        (5, 1): [[[0], [1], [3], [4], [7]], [[2], [2], [2], [5], [5]], [[1], [1], [1], [1], [1]], [[4], [0], [3], [1], [2]]],
+        (4, 2): [[[0, 0], [0, 1], [2, 0], [2, 2]], [[1, 0], [1, 3], [1, 1], [1, 2]], [[0, 1], [1, 0], [1, 1], [0, 0]]],
+        (3, 1): [[[0], [1], [3]], [[2], [2], [0]]],
+        (6, 1): [[[0], [1], [2], [5], [6], [9]], [[3], [1], [3], [1], [0], [0]]],
+        (1, 1): [[[3]]],
+        (2, 2): [[[0, 1], [1, 0]]],
+        (6, 2): [[[0, 0], [0, 3], [1, 1], [4, 0], [5, 3], [5, 4]]],
+    }
+    if tier == "thorough":
+        for (n, d) in [(5, 1), (4, 2), (6, 1), (6, 2), (7, 1), (5, 3)]:
+            for _ in range(6):
+                ds.setdefault((n, d), []).append([[rnd.randint(0, 4) for _ in range(d)] for _ in range(n)])
+    return ds
+
+
+def param_grid(n, d, tier, rnd, budget):
+    grid = []
+    for kmax, md, mss, msl, mf, ml in itertools.product([1, 2, 3, 4], [None, 1, 2], [2, 3, 4, 5], [1, 2], [None] + list(range(1, d + 1)),
+                                                         [None, 2, 3]):
+        if 2 * msl > mss or msl > n:
+            continue
+        grid.append(dict(max_clusters=kmax, max_depth=md, min_samples_split=mss, min_samples_leaf=msl, max_features=mf,
+                         max_leaves=ml))
+    k = budget
+    must = [g for g in grid if g["min_samples_split"] > n][:2]           # root smaller than min_samples_split
+    pick = rnd.sample(grid, min(k, len(grid)))
+    return must + pick
+
+
+def precomputed_kernels(n):
+    i = np.arange(1, n + 1)
+    pre = ((np.outer(i, i) + 2 * i[:, None] + 2 * i[None, :]) % 5) - 1          # symmetric, indefinite
+    return [None, pre.astype(float)]
+
+
+
+
+def owner_of_rejection(dg):
+    """A rejected trace belongs to C08 when only the gain / best-candidate conjuncts fail at a step, else to C09."""
+    d = dg.get("diag") or {}
+    ev = dg.get("event") or {}
+    if ev.get("e") == "step" and d.get("loopcond") and d.get("args") and d.get("admissible"):
+        return "C08"
+    if ev.get("e") == "end" and d and all(d.get(k) for k in ("loopcond", "labels", "leaves", "tree", "routing")):
+        return "C08"          # only the score clause fails
+    return "C09"
+
+
+def run_traces(rep, pid, tier, rnd, budget):
+    """Record real Kauri.fit executions and validate them against KauriTrace; report what property `pid` owns."""
+    groups, meta = collections.defaultdict(list), collections.defaultdict(list)
+    for (n, d), dsl in datasets(tier, rnd).items():
+        for X in dsl:
+            for params in param_grid(n, d, tier, rnd, budget):
+                for Kmat in precomputed_kernels(n):
+                    for variant in ("compiled", "pyx"):
+                        p = dict(params, random_state=rnd.randint(0, 3))
+                        try:
+                            ev, model = record_fit(p, X, Kmat=Kmat, variant=variant)
+                        except Exception as e:
+                            if pid == "C09":
+                                rep.violation(f"Kauri(**{p}).fit raised {type(e).__name__}: {e} on X={X} kernel="
+                                              f"{'linear' if Kmat is None else 'precomputed'} [{variant}]",
+                                              {"X": X, "params": p, "variant": variant}, tags=("raises", variant))
+                            continue
+                        groups[(n, d)].append(ev)
+                        meta[(n, d)].append(dict(X=X, params=p, kernel="linear" if Kmat is None else "precomputed-indefinite",
+                                                 variant=variant, splits=len(ev[-1]["tree"]["left"]) // 2))
+    devs = 0
+    for (n, d), traces in groups.items():
+        res = trace.validate("KauriTrace", traces, constants=dict(N=n, D=d), invariants=TRACE_INVS[pid], timeout=3000)
+        rep.add_tlc("KauriTrace", res["result"], note=f"N={n} D={d} traces={len(traces)}")
+        rep.traces += len(traces)
+        for m in meta[(n, d)]:
+            rep.case((m["X"], m["params"], m["kernel"], m["variant"]), nontrivial=m["splits"] > 0)
+        for tid, info in res["accepted"].items():
+            if info.get("dev"):
+                devs += info["dev"]
+                if pid == "C08":        # named deviation actions = the known double-star defect inside a real fit
+                    m = meta[(n, d)][tid - 1]
+                    rep.violation(f"Kauri.fit took {info['dev']} step(s) only explained by the double-star gain defect: {m}",
+                                  m, tags=("dstar-gain-wrong", "dstar-undervalued", m["variant"]))
+        for inv, tid in res["inv_violations"]:
+            m = meta[(n, d)][tid - 1] if tid else {}
+            rep.violation(f"real Kauri.fit execution violates {inv}: {m}", {"meta": m, "trace": traces[tid - 1] if tid else None},
+                          tags=(inv, m.get("variant", "")))
+        for tid in res["rejected"]:
+            if any(t == tid for _, t in res["inv_violations"]):
+                continue
+            m = meta[(n, d)][tid - 1]
+            dg = trace.diagnose("KauriTrace", traces, tid, constants=dict(N=n, D=d))
+            if owner_of_rejection(dg) != pid:
+                continue
+            failing = [k for k, v in (dg["diag"] or {}).items() if v is False]
+            rep.violation(f"real Kauri.fit execution is not a behaviour of KauriFit: {m}; stuck at event #{dg['l']} "
+                          f"{json.dumps(dg['event'])[:400]}; failing clauses: {failing}; diag={dg['diag']}",
+                          {"meta": m, "trace": traces[tid - 1], "diag": dg}, tags=tuple(failing) + (m["variant"],))
+        if traces:
+            rep.sample({"meta": meta[(n, d)][0], "trace_events": [e["e"] for e in traces[0]],
+                        "first_step": traces[0][1] if len(traces[0]) > 2 else None})
+    rep.extra["known_deviation_steps_in_real_fits"] = devs
